@@ -54,6 +54,9 @@ struct World {
 	nng_msg     *last[2]   = {nullptr, nullptr}; // last message received on a raw A (for forwarding)
 	uint32_t     tag       = 1;
 	std::set<std::string> states;
+	// round 7: up to two contexts on the socket under test (req, rep, sub, surveyor, respondent support them)
+	nng_ctx      ctx[2];
+	bool         ctx_open[2] = {false, false};
 };
 
 static const char *
@@ -284,6 +287,54 @@ exec_c15(const vcase *vc)
 				vr_tag("unsubscribe");
 			}
 			vs_settle();
+		} else if (n == "ctxopen") {
+			// a context on the socket under test: it shares the pipes (and, for SUB, the arrivals) with the socket,
+			// whose descriptors must keep mirroring the SOCKET's own state whatever the contexts do
+			int k = (int) vop_arg(o, 1, 0) & 1;
+			if (W.ctx_open[k])
+				continue;
+			int rv = nng_ctx_open(&W.ctx[k], W.s[0]);
+			if (rv != 0) {
+				VR_CHECK(rv == NNG_ENOTSUP, "C15:ctx-open", "%s: nng_ctx_open -> %d", W.p->name, rv);
+				continue;
+			}
+			W.ctx_open[k] = true;
+			if (strcmp(W.p->name, "sub") == 0 && vop_arg(o, 2, 1) != 0)
+				nng_sub0_ctx_subscribe(W.ctx[k], "", 0);
+			vr_tag("context");
+			vs_settle();
+		} else if (n == "ctxclose") {
+			int k = (int) vop_arg(o, 1, 0) & 1;
+			if (!W.ctx_open[k])
+				continue;
+			nng_ctx_close(W.ctx[k]);
+			W.ctx_open[k] = false;
+			vs_settle();
+		} else if (n == "ctxrecv" || n == "ctxsend") {
+			int k = (int) vop_arg(o, 1, 0) & 1;
+			if (!W.ctx_open[k])
+				continue;
+			uint64_t t0 = vs_now();
+			int      R;
+			if (n == "ctxrecv") {
+				nng_msg *m = nullptr;
+				R          = nng_ctx_recvmsg(W.ctx[k], &m, NNG_FLAG_NONBLOCK);
+				if (R == 0) {
+					nng_msg_free(m);
+					vr_tag("context_received");
+				}
+			} else {
+				nng_msg *m = h_msg(W.tag++, 3);
+				R          = nng_ctx_sendmsg(W.ctx[k], m, NNG_FLAG_NONBLOCK);
+				if (R != 0) {
+					VR_CHECK(at_is_live(m), "C15:failed-send-consumed-message", "%s context: non-blocking send failed with %d but the message was released", W.p->name, R);
+					nng_msg_free(m);
+				} else
+					vr_tag("context_sent");
+			}
+			uint64_t dt = vs_now() - t0;
+			VR_CHECK(dt <= 3, "C15:nonblock-blocked", "%s context: non-blocking %s took %llu virtual ms (result %d)", W.p->name, n.c_str(), (unsigned long long) dt, R);
+			vs_settle();
 		} else if (n == "stime") {
 			// short survey time so that surveys expire within the history
 			int rv = nng_socket_set_ms(W.s[x], NNG_OPT_SURVEYOR_SURVEYTIME, (nng_duration) vop_arg(o, 1, 50));
@@ -298,6 +349,9 @@ exec_c15(const vcase *vc)
 	for (int k = 0; k < 2; k++)
 		if (W.last[k])
 			nng_msg_free(W.last[k]);
+	for (int k = 0; k < 2; k++)
+		if (W.ctx_open[k] && vop_arg(&vc->ops[0], 0, 0) % 2 == 0)
+			nng_ctx_close(W.ctx[k]); // (otherwise the context dies with its socket)
 	nng_socket_close(W.s[2]);
 	nng_socket_close(W.s[1]);
 	nng_socket_close(W.s[0]);
@@ -313,7 +367,7 @@ genOp()
 	return gen::exec([]() {
 		std::ostringstream o;
 		int x = *gen::weightedElement<int>({{3, 0}, {2, 1}, {1, 2}});
-		int k = *gen::weightedElement<int>({{10, 0}, {10, 1}, {6, 2}, {2, 3}, {1, 4}, {2, 5}, {2, 6}, {1, 7}, {1, 8}, {2, 9}, {1, 10}, {2, 11}});
+		int k = *gen::weightedElement<int>({{10, 0}, {10, 1}, {6, 2}, {2, 3}, {1, 4}, {2, 5}, {2, 6}, {1, 7}, {1, 8}, {2, 9}, {1, 10}, {2, 11}, {2, 12}, {3, 13}, {2, 14}, {1, 15}});
 		switch (k) {
 		case 0: o << "send " << x; break;
 		case 1: o << "recv " << x; break;
@@ -327,6 +381,10 @@ genOp()
 		case 9: o << "conn2"; break;
 		case 10: o << "drop2"; break;
 		case 11: o << "pclose 0 " << *pbt::range<int>(0, 3); break;
+		case 12: o << "ctxopen 0 " << *pbt::range<int>(0, 1) << " " << *gen::weightedElement<int>({{4, 1}, {1, 0}}); break;
+		case 13: o << "ctxrecv 0 " << *pbt::range<int>(0, 1); break;
+		case 14: o << "ctxsend 0 " << *pbt::range<int>(0, 1); break;
+		case 15: o << "ctxclose 0 " << *pbt::range<int>(0, 1); break;
 		}
 		return o.str();
 	});
@@ -359,7 +417,7 @@ main(int argc, char **argv)
 	sp.gen  = gen_c15;
 	sp.exec = exec_c15;
 	sp.rule = "random histories (send/recv/probe on both ends, connect/disconnect, SENDBUF/RECVBUF resize, virtual waits, "
-	          "subscribe/unsubscribe) over 22 socket kinds (11 cooked + 11 raw) against a cooked peer on inproc; at each "
+	          "subscribe/unsubscribe, and - round 7 - up to two contexts opened on the socket under test with non-blocking context sends / receives) over 22 socket kinds (11 cooked + 11 raw) against a cooked peer on inproc; at each "
 	          "quiescent point poll(2) on the send/recv descriptor is compared with the non-blocking operation. Non-trivial = "
 	          "the socket under test was observed in >= 3 distinct (direction, pollable, result) states; distinct by case hash";
 	sp.nontrivial = [](const std::set<std::string> &t) { return t.count("three_states") > 0; };
